@@ -126,6 +126,9 @@ func (s *sim) examine(preDur map[uint64][]byte, preDir map[string]uint64, preFil
 	if c.Tier == "thorough" {
 		budget = 4000
 	}
+	if s.light {
+		budget = 120
+	}
 	for ci, fi := range changed {
 		v := vs[fi]
 		// differing region [lo,hi) between the durable (zero-extended) and the
@@ -168,21 +171,48 @@ func (s *sim) examine(preDur map[uint64][]byte, preDir map[string]uint64, preFil
 		if stride > 1 {
 			phase = t.Choose(stride)
 		}
-		if lo%512 == 0 && hi-lo > 512 && len(c.Viol) == 0 && string(s.durContent[curIno[v.name]]) == string(v.dur) {
-			// the first unsynced sector never reached the disk, the later ones did
+		// how many leading sectors of the unsynced region are lost (one, a few, a
+		// page or more) while what follows reached the disk
+		// the bytes that were pending together: what the file held at the first
+		// fsync of it inside the operation (everything if there was none)
+		ep := v.cur
+		if fsb, ok := s.firstSync[curIno[v.name]]; ok {
+			ep = fsb
+		}
+		e1 := lo
+		for k := min(len(ep), ml) - 1; k >= lo; k-- {
+			if ep[k] != durAt(k) {
+				e1 = k + 1
+				break
+			}
+		}
+		for _, nsec := range []int{1, 2, 8, 9, 17, 33} {
+			holeEnd := (lo/512 + nsec) * 512
+			hole := holeEnd - lo
+			if e1 <= holeEnd || len(c.Viol) > 0 {
+				break
+			}
+			// the first sector(s) of what was being written never reached the disk
+			// (a partly old sector keeps its old version), the later ones did
 			// (sector-granular reordering): recovery must wipe them, or they come
-			// back behind whatever is saved next. Only legitimate when no fsync of
-			// this file completed during the operation (all of [lo,hi) was pending
-			// at the same time).
+			// back behind whatever is saved next. The kept bytes end where the
+			// first fsync inside the operation found the file: up to there all of
+			// it was pending at the same time.
 			var files []fileImg
 			for j := range vs {
 				w := vs[j]
 				var data []byte
 				switch {
 				case j == fi:
-					data = append([]byte(nil), w.cur...)
-					for k := lo; k < lo+512 && k < len(data); k++ {
-						data[k] = durAt(k)
+					data = make([]byte, len(w.cur))
+					for k := range data {
+						if k < lo || (k >= holeEnd && k < e1 && k < len(ep)) {
+							if k < len(ep) {
+								data[k] = ep[k]
+							}
+						} else {
+							data[k] = durAt(k)
+						}
 					}
 				case isBefore(changed, ci, j):
 					data = w.cur
@@ -199,6 +229,12 @@ func (s *sim) examine(preDur map[uint64][]byte, preDir map[string]uint64, preFil
 				files = append(files, fileImg{w.name, data})
 			}
 			c.Fault("first_unsynced_sector_lost")
+			if lo%512 == 0 {
+				c.Fault("first_unsynced_sector_lost_aligned")
+			}
+			if hole >= 4096 {
+				c.Fault("first_unsynced_page_lost")
+			}
 			s.forcePost = true
 			s.checkImage("power", files, start, prePower, false, lo)
 			s.forcePost = false
